@@ -334,5 +334,8 @@ def determinism_slice(pid, tier, seed):
     r = subprocess.run([sys.executable, os.path.join(VERIF, "cardsim_main.py"), "digest", pid, str(seed)],
                        capture_output=True, text=True, env=env, timeout=600)
     c = r.stdout.strip().splitlines()[-1] if r.stdout.strip() else f"<no output, exit {r.returncode}: {r.stderr[-200:]}>"
+    # "stable|full": the full part is compared between cold processes only (first in-process run vs
+    # fresh interpreter); the stable part must also survive a warm repeat
+    stable = lambda x: x.split("|")[0]  # noqa
     return {"in_process": a, "repeat": b, "fresh_interpreter_other_hashseed": c,
-            "mismatch": not (a == b == c)}
+            "mismatch": not (a == c and stable(a) == stable(b))}
